@@ -113,7 +113,17 @@ def update_worker(analysis: Analysis, ctxspec) -> dict:
         reboots = [(i, e) for i, e in enumerate(s.events) if e.kind == "store" and e.name == "reboot"]
         fw_known = any(f[0] == "in" and store_name(f[2]) == "firmware" for f in s.facts) or any(e.kind == "setitem" and isinstance(e.recv, V) and store_name(e.recv.key()) == "firmware" for e in s.events)
         node_known = any(f[0] == "in" and f[1] == nid.key() and render(f[2]).endswith("sensors") for f in s.facts)
-        rows.append({"kind": kind, "req": [i for i, _e in req], "req_vals_tuple2": all(isinstance(e.args[1], TupleV) and len(e.args[1].items) == 2 for _i, e in req), "req_key_known": all(any(f[0] == "in" and f[1] == e.args[0].key() and render(f[2]).endswith("sensors") for f in (e.facts or ())) for _i, e in req), "pops": pops, "reboots": [(i, isinstance(e.args[0], Const) and e.args[0].value is True) for i, e in reboots], "fw_known": fw_known, "node_known": node_known, "witness": describe_path(out, 22)})
+        def in_u16(e, val) -> bool:
+            """Is `val` known to lie in 0..65535 at event e (both bounds among the facts)?"""
+            k = val.key()
+            fs = e.facts or ()
+            lo = any(f[0] == "atom" and f[1][0] == "cmp" and f[2] is True and ((f[1][1] == "LtE" and f[1][2] == ("c", "int", 0) and f[1][3] == k) or (f[1][1] == "GtE" and f[1][2] == k and f[1][3] == ("c", "int", 0))) for f in fs)
+            hi = any(f[0] == "atom" and f[1][0] == "cmp" and f[2] is True and ((f[1][1] == "LtE" and f[1][2] == k and f[1][3] == ("c", "int", 65535)) or (f[1][1] == "Lt" and f[1][2] == k and f[1][3] == ("c", "int", 65536)) or (f[1][1] == "GtE" and f[1][2] == ("c", "int", 65535) and f[1][3] == k)) for f in fs)
+            return lo and hi
+
+        fw_stores = [e for e in s.events if e.kind == "setitem" and isinstance(e.recv, V) and store_name(e.recv.key()) == "firmware"]
+        ranged = all(isinstance(e.args[1], TupleV) and len(e.args[1].items) == 2 and all(in_u16(e, x) for x in e.args[1].items) for _i, e in req) and all(isinstance(e.args[0], TupleV) and all(in_u16(e, x) for x in e.args[0].items) for e in fw_stores)
+        rows.append({"kind": kind, "ranged": ranged, "req": [i for i, _e in req], "req_vals_tuple2": all(isinstance(e.args[1], TupleV) and len(e.args[1].items) == 2 for _i, e in req), "req_key_known": all(any(f[0] == "in" and f[1] == e.args[0].key() and render(f[2]).endswith("sensors") for f in (e.facts or ())) for _i, e in req), "pops": pops, "reboots": [(i, isinstance(e.args[0], Const) and e.args[0].value is True) for i, e in reboots], "fw_known": fw_known, "node_known": node_known, "witness": describe_path(out, 22)})
     return {"ctx": ctx.name, "rows": rows}
 
 
@@ -231,6 +241,7 @@ def run(analysis: Analysis, tier: str) -> RuleResult:
                 res.add("C10-R1", "ota:OTAFirmware.make_update / a node is scheduled only when the firmware exists", r["fw_known"], "mysensors/ota.py", "dominated by (type, version) in firmware", r["witness"] if not r["fw_known"] else None, context=summ["ctx"])
                 res.add("C10-R1", "ota:OTAFirmware.make_update / only known nodes are scheduled", r["req_key_known"], "mysensors/ota.py", "node in sensors", r["witness"] if not r["req_key_known"] else None, context=summ["ctx"])
                 res.add("C10-R1", "ota:OTAFirmware.make_update / session entries are (type, version) pairs", r["req_vals_tuple2"], "mysensors/ota.py", "INV-OTA-SHAPE", context=summ["ctx"])
+                res.add("C10-R1", "ota:OTAFirmware.make_update / firmware type and version are stored only within 0..65535 (what the responders can pack)", r["ranged"], "mysensors/ota.py", "INV-OTA-RANGE: both stores are dominated by 0 <= type, version <= 65535" if r["ranged"] else "a type / version outside 0..65535 can be scheduled: the update call returns normally and the node's next config request raises struct.error out of Gateway.logic", r["witness"] if not r["ranged"] else None, context=summ["ctx"])
                 before = {s for i, s in r["pops"] if i < first_req}
                 ok = {"unstarted", "started"} <= before
                 res.add("C10-R2", "ota:OTAFirmware.make_update / restart: the node is removed from unstarted and started before it is scheduled", ok, "mysensors/ota.py", f"popped before scheduling: {sorted(before)}", r["witness"] if not ok else None, context=summ["ctx"])
